@@ -70,6 +70,21 @@ def main() -> int:
             from selftest.run import run_selftest
 
             rc_self, extra = run_selftest(prop, args.root, seed)
+            from sa.bytecheck import cross_check, sabotage_selfcheck
+
+            bc = cross_check(prog, an)
+            sab = sabotage_selfcheck(prog)
+            extra['bytecode_crosscheck'] = {
+                'what': 'every exceptional CFG edge destination compared with the unwinding chain from CPython\'s exception table (source compiled, never executed)',
+                'functions': bc['functions'], 'statements_checked': bc['statements_checked'], 'edges_checked': bc['edges_checked'],
+                'mismatches': bc['mismatches'][:20], 'skipped': bc['skipped'][:20], 'builder_sabotage_selfcheck': sab,
+            }
+            print(f'bytecode cross-check: {bc["edges_checked"]} exceptional edges of {bc["statements_checked"]} statements in {bc["functions"]} functions, '
+                  f'{len(bc["mismatches"])} mismatches; sabotaged builders detected: {sum(1 for x in sab if x["status"] == "detected")}/{len(sab)}')
+            for mm in bc['mismatches'][:10]:
+                print(f'ANALYSIS-ERROR property={prop} bytecode cross-check: {mm}')
+            if bc['mismatches'] or any(x['status'] == 'NOT DETECTED' for x in sab):
+                rc_self = 2
         rc, _ = run_property(
             prop, obs, prog, an, cg, args.tier, seed, t0, only_key=only_key, extra_cov=extra,
             write_evidence=not (args.no_evidence or args.replay),
